@@ -1,103 +1,866 @@
-use cardinalsin::api::ingest::prometheus::{verif, Label, Sample, TimeSeries, WriteRequest};
-use csv_common::catch;
-use std::panic::AssertUnwindSafe;
+//! csv-proto — correspondence + oracle for C17 (ingest protocol conversion is
+//! faithful; no payload can crash the receiver).
+//!
+//! Streams (all randomness from the one seed):
+//!  1. structured remote-write: generated requests, encoded by the hand encoder
+//!     (canonical and non-canonical variants), through the re-exported
+//!     `parse_write_request` / `convert_prom_to_arrow` and (a share of them,
+//!     snappy-compressed) through the public `handle_remote_write`; decoded
+//!     request, produced rows and HTTP status vs the extracted Coq model; the
+//!     oracle checks one row per sample with exact fields on the produced batch.
+//!  2. malformed remote-write: mutated valid encodings, random bytes, a corpus
+//!     of hostile inputs; outcome (ok / error code / panic / hang) vs model.
+//!  3. OTLP: generated export requests through `export_request_to_arrow`;
+//!     rows vs model; oracle per data point; prost-decoded random / mutated
+//!     bytes must never panic.
+//!  4. Arrow Flight DoPut frames (valid, mutated, random): never panic.
+//! Every call into the implementation that parses hostile bytes runs in a child
+//! process (`csv-proto worker`) under a watchdog, so a hang or an abort is an
+//! outcome, not the end of the run.
+mod canon;
+mod otlp;
+mod wire;
 
-fn main() {
-    let a: Vec<String> = std::env::args().collect();
-    if a.len() > 1 && a[1] == "probe" {
-        // 1. length varint near 2^64 on a known field
-        let mut b = vec![0x0A];
-        b.extend([0xFF; 9]);
-        b.push(0x01);
-        println!("len overflow known field: {:?}", catch(AssertUnwindSafe(|| verif::parse_write_request(&b).map(|_| ()).map_err(|e| e.to_string()))));
-        // 2. unknown field with wrap to 0
-        let mut b = vec![0x1A];
-        // length = 2^64 - 11
-        let l: u64 = 0u64.wrapping_sub(11);
-        let mut x = l;
-        loop { let byte = (x & 0x7f) as u8; x >>= 7; if x == 0 { b.push(byte); break } else { b.push(byte | 0x80) } }
-        println!("bytes {:?}", b);
-        println!("len overflow unknown field: {:?}", catch(AssertUnwindSafe(|| verif::parse_write_request(&b).map(|_| ()).map_err(|e| e.to_string()))));
-        // 3. 2^63 value
-        let req = WriteRequest { timeseries: vec![TimeSeries { labels: vec![Label { name: "__name__".into(), value: "m".into() }], samples: vec![Sample { timestamp_ms: 1, value: 9223372036854775808.0 }] }] };
-        let r = catch(AssertUnwindSafe(|| verif::convert_prom_to_arrow(&req).map_err(|e| e.to_string())));
-        println!("2^63: {:?}", r);
-        // 4. ts overflow
-        let req = WriteRequest { timeseries: vec![TimeSeries { labels: vec![], samples: vec![Sample { timestamp_ms: 1 << 62, value: 1.5 }] }] };
-        let r = catch(AssertUnwindSafe(|| verif::convert_prom_to_arrow(&req).map(|b| format!("{:?}", b.column(0))).map_err(|e| e.to_string())));
-        println!("ts overflow: {:?}", r);
-        // 5. zero samples
-        let req = WriteRequest { timeseries: vec![TimeSeries { labels: vec![Label { name: "a".into(), value: "b".into() }], samples: vec![] }] };
-        let r = catch(AssertUnwindSafe(|| verif::convert_prom_to_arrow(&req).map(|b| b.num_rows()).map_err(|e| e.to_string())));
-        println!("zero samples: {:?}", r);
-        handler_probe();
+use csv_common::{catch, ddmin, Args, Model, Report, Rng};
+use serde_json::json;
+use std::io::{BufRead, BufReader, Write};
+use std::panic::AssertUnwindSafe;
+use std::process::{Child, ChildStdin, Command, Stdio};
+use std::sync::mpsc::{channel, Receiver};
+use std::sync::Arc;
+use std::time::Duration;
+use wire::{hex, unhex};
+
+// ===================================================================== worker
+/// Child process: one request per line, one answer per line.
+///   P <hex>      parse + convert      -> <parse out> \t <convert out>
+///   R <request>  convert a request     -> <convert out>
+///   T <hex>      prost-decode an OTLP request and convert it -> ok rows=N | err | undecodable | PANIC ..
+///   F <frames>   Flight DoPut frames (hexheader:hexbody joined by ",") -> ok N | err | PANIC ..
+fn worker_main() {
+    csv_common::quiet_panics();
+    unsafe {
+        // a hostile length must not be able to eat the machine's memory
+        let lim = libc::rlimit { rlim_cur: 6 << 30, rlim_max: 6 << 30 };
+        libc::setrlimit(libc::RLIMIT_AS, &lim);
+    }
+    let rt = tokio::runtime::Builder::new_current_thread().enable_all().build().unwrap();
+    let flight = rt.block_on(async { mk_flight() });
+    let stdin = std::io::stdin();
+    let stdout = std::io::stdout();
+    for line in stdin.lock().lines() {
+        let line = match line {
+            Ok(l) => l,
+            Err(_) => break,
+        };
+        let (cmd, arg) = line.split_once(' ').unwrap_or((line.as_str(), ""));
+        let out = match cmd {
+            "P" => {
+                let bytes = unhex(arg);
+                let (p, req) = canon::impl_parse(&bytes);
+                let c = match req {
+                    Some(r) => canon::impl_convert(&r).0,
+                    None => "-".to_string(),
+                };
+                format!("{}\t{}", p, c)
+            }
+            "R" => match canon::request_of_text(arg) {
+                Some(r) => canon::impl_convert(&r).0,
+                None => "BADINPUT".into(),
+            },
+            "T" => {
+                use prost::Message;
+                let bytes = unhex(arg);
+                match catch(AssertUnwindSafe(|| opentelemetry_proto::tonic::collector::metrics::v1::ExportMetricsServiceRequest::decode(&bytes[..]))) {
+                    Err(p) => format!("PANIC in prost decode: {}", p.replace(['\n', '\t'], " ")),
+                    Ok(Err(_)) => "undecodable".into(),
+                    Ok(Ok(req)) => match catch(AssertUnwindSafe(|| cardinalsin::api::ingest::otlp::export_request_to_arrow(&req))) {
+                        Err(p) => format!("PANIC {}", p.replace(['\n', '\t'], " ")),
+                        Ok(Err(_)) => "err".into(),
+                        Ok(Ok(b)) => format!("ok rows={}", b.num_rows()),
+                    },
+                }
+            }
+            "F" => {
+                let frames: Vec<arrow_flight::FlightData> = arg
+                    .split(',')
+                    .filter(|x| !x.is_empty())
+                    .map(|f| {
+                        let (h, b) = f.split_once(':').unwrap_or((f, ""));
+                        arrow_flight::FlightData { flight_descriptor: None, data_header: unhex(h).into(), app_metadata: Default::default(), data_body: unhex(b).into() }
+                    })
+                    .collect();
+                let svc = flight.clone();
+                let r = rt.block_on(async move {
+                    let h = tokio::spawn(async move { svc.process_stream(frames.into_iter()).await.map_err(|e| e.to_string()) });
+                    h.await
+                });
+                match r {
+                    Err(e) => format!("PANIC {}", e.to_string().replace(['\n', '\t'], " ")),
+                    Ok(Err(_)) => "err".into(),
+                    Ok(Ok(n)) => format!("ok {}", n),
+                }
+            }
+            _ => "BADCMD".into(),
+        };
+        let mut o = stdout.lock();
+        let _ = writeln!(o, "{}", out);
+        let _ = o.flush();
     }
 }
 
-fn mk_state(flush_rows: usize) -> (cardinalsin::api::ApiState, std::sync::Arc<cardinalsin::ingester::Ingester>) {
+fn mk_ingester(flush_rows: usize) -> Arc<cardinalsin::ingester::Ingester> {
     use cardinalsin::ingester::{Ingester, IngesterConfig};
     use cardinalsin::metadata::LocalMetadataClient;
-    use cardinalsin::query::{QueryConfig, QueryNode};
     use cardinalsin::schema::MetricSchema;
     use cardinalsin::StorageConfig;
-    use std::sync::Arc;
     let store: Arc<dyn object_store::ObjectStore> = Arc::new(object_store::memory::InMemory::new());
     let meta = Arc::new(LocalMetadataClient::new());
     let mut cfg = IngesterConfig::default();
     cfg.flush_row_count = flush_rows;
-    let ing = Arc::new(Ingester::new(cfg, store.clone(), meta.clone(), StorageConfig::default(), MetricSchema::default_metrics()));
-    let rt = tokio::runtime::Handle::current();
-    let _ = rt;
-    let qn = futures_block(QueryNode::new(QueryConfig::default(), store, meta, StorageConfig::default())).unwrap();
-    (cardinalsin::api::ApiState { ingester: ing.clone(), query_node: Arc::new(qn) }, ing)
+    cfg.wal.enabled = false;
+    Arc::new(Ingester::new(cfg, store, meta, StorageConfig::default(), MetricSchema::default_metrics()))
 }
-fn futures_block<F: std::future::Future>(f: F) -> F::Output {
-    tokio::task::block_in_place(|| tokio::runtime::Handle::current().block_on(f))
+
+fn mk_flight() -> Arc<cardinalsin::api::ingest::flight_ingest::FlightIngestService> {
+    Arc::new(cardinalsin::api::ingest::flight_ingest::FlightIngestService::new(mk_ingester(1_000_000)))
 }
-fn handler_probe() {
-    use axum::response::IntoResponse;
-    let rt = tokio::runtime::Builder::new_multi_thread().enable_all().build().unwrap();
-    rt.block_on(async {
-        let (state, ing) = mk_state(1);
-        let mut rx = ing.subscribe();
-        let bodies: Vec<(&str, Vec<u8>)> = vec![
-            ("empty body", vec![]),
-            ("one empty series", vec![0x0A, 0x00]),
-            ("series with label only", vec![0x0A, 0x06, 0x0A, 0x04, 0x0A, 0x00, 0x12, 0x00]),
-            ("one sample", vec![0x0A, 0x0D, 0x12, 0x0B, 0x09, 0,0,0,0,0,0,0xF0,0x3F, 0x10, 0x05]),
-            ("label named timestamp", {
-                // label{name=timestamp,value=x}, sample
-                let mut l = vec![0x0A, 9]; l.extend(b"timestamp"); l.extend([0x12, 1, b'x']);
-                let mut ts = vec![0x0A, l.len() as u8]; ts.extend(l);
-                ts.extend([0x12, 0x0B, 0x09, 0,0,0,0,0,0,0xF0,0x3F, 0x10, 0x05]);
-                let mut b = vec![0x0A, ts.len() as u8]; b.extend(ts); b }),
-        ];
-        {
-            use arrow_array::{RecordBatch, StringArray, TimestampNanosecondArray, Float64Array};
-            use arrow_schema::{Schema, Field, DataType, TimeUnit};
-            use std::sync::Arc;
-            let schema = Arc::new(Schema::new(vec![
-                Field::new("timestamp", DataType::Timestamp(TimeUnit::Nanosecond, Some("UTC".into())), false),
-                Field::new("metric_name", DataType::Utf8, false),
-                Field::new("value_f64", DataType::Float64, true)]));
-            let b = RecordBatch::try_new(schema, vec![
-                Arc::new(TimestampNanosecondArray::from(Vec::<i64>::new()).with_timezone("UTC")),
-                Arc::new(StringArray::from(Vec::<String>::new())),
-                Arc::new(Float64Array::from(Vec::<f64>::new()))]).unwrap();
-            let fd = cardinalsin::api::ingest::flight_ingest::batch_to_flight_data(&b).unwrap();
-            let svc = Arc::new(cardinalsin::api::ingest::flight_ingest::FlightIngestService::new(ing.clone()));
-            let h = tokio::spawn(async move { svc.process_stream(fd.into_iter()).await.map_err(|e| e.to_string()) });
-            println!("flight zero-row batch: {:?}", h.await.map_err(|e| e.to_string()));
+
+/// Parent side of the worker: ask with a watchdog.
+struct Worker {
+    child: Child,
+    stdin: ChildStdin,
+    rx: Receiver<String>,
+    pub restarts: u64,
+}
+enum Answer {
+    Line(String),
+    Hang,
+    Died,
+}
+impl Worker {
+    fn spawn() -> Worker {
+        let exe = std::env::current_exe().expect("current_exe");
+        let mut child = Command::new(exe).arg("worker").stdin(Stdio::piped()).stdout(Stdio::piped()).stderr(Stdio::null()).spawn().expect("spawn worker");
+        let stdin = child.stdin.take().unwrap();
+        let stdout = child.stdout.take().unwrap();
+        let (tx, rx) = channel();
+        std::thread::spawn(move || {
+            let r = BufReader::new(stdout);
+            for l in r.lines() {
+                match l {
+                    Ok(l) => {
+                        if tx.send(l).is_err() {
+                            break;
+                        }
+                    }
+                    Err(_) => break,
+                }
+            }
+        });
+        Worker { child, stdin, rx, restarts: 0 }
+    }
+    fn restart(&mut self) {
+        let _ = self.child.kill();
+        let _ = self.child.wait();
+        let n = self.restarts + 1;
+        *self = Worker::spawn();
+        self.restarts = n;
+    }
+    fn ask(&mut self, line: &str, timeout: Duration) -> Answer {
+        if writeln!(self.stdin, "{}", line).is_err() || self.stdin.flush().is_err() {
+            self.restart();
+            return Answer::Died;
         }
-        for (name, raw) in bodies {
-            let body = snap::raw::Encoder::new().compress_vec(&raw).unwrap();
-            let st = state.clone();
+        match self.rx.recv_timeout(timeout) {
+            Ok(l) => Answer::Line(l),
+            Err(std::sync::mpsc::RecvTimeoutError::Timeout) => {
+                self.restart();
+                Answer::Hang
+            }
+            Err(_) => {
+                self.restart();
+                Answer::Died
+            }
+        }
+    }
+}
+impl Drop for Worker {
+    fn drop(&mut self) {
+        let _ = self.child.kill();
+        let _ = self.child.wait();
+    }
+}
+
+const WATCHDOG: Duration = Duration::from_secs(20);
+
+/// (parse out, combined parse+convert out in the model's `C` format)
+fn impl_prom(w: &mut Worker, bytes: &[u8]) -> (String, String) {
+    match w.ask(&format!("P {}", hex(bytes)), WATCHDOG) {
+        Answer::Hang => ("HANG".into(), "HANG".into()),
+        Answer::Died => ("ABORT".into(), "ABORT".into()),
+        Answer::Line(l) => {
+            let (p, c) = l.split_once('\t').unwrap_or((l.as_str(), "-"));
+            let p = strip_panic(p);
+            let c = strip_panic(c);
+            let combined = if let Some(code) = p.strip_prefix("ERR ") {
+                format!("PERR {}", code)
+            } else if p == "PANIC" {
+                "PANIC".to_string()
+            } else {
+                c.clone()
+            };
+            (p, combined)
+        }
+    }
+}
+fn strip_panic(s: &str) -> String {
+    if s.starts_with("PANIC") {
+        "PANIC".into()
+    } else {
+        s.to_string()
+    }
+}
+
+// ===================================================================== oracle
+/// The property's own predicate for a remote-write request whose encoding was
+/// accepted: one row per sample, exact ns timestamp, metric name, complete
+/// label set, numerically equal value, nothing mixed between series.
+fn prom_oracle(req: &[wire::GSeries], conv: &str, lossy: bool) -> Vec<String> {
+    let mut bad = Vec::new();
+    let total: usize = req.iter().map(|t| t.samples.len()).sum();
+    let overflow = req.iter().flat_map(|t| t.samples.iter()).any(|s| (s.ts as i128 * 1_000_000) > i64::MAX as i128 || (s.ts as i128 * 1_000_000) < i64::MIN as i128);
+    if conv.starts_with("PANIC") || conv == "HANG" || conv == "ABORT" {
+        bad.push(format!("the receiver crashed on a well-formed request: {}", conv));
+        return bad;
+    }
+    if let Some(code) = conv.strip_prefix("CERR ") {
+        // an error is the only faithful answer when there is nothing to store or a timestamp has no ns representation
+        if !(req.is_empty() || overflow) {
+            bad.push(format!("well-formed request with {} samples rejected (code {})", total, code));
+        }
+        return bad;
+    }
+    if conv.starts_with("PERR") {
+        bad.push(format!("well-formed encoding rejected by the reader ({})", conv));
+        return bad;
+    }
+    let Some(body) = conv.strip_prefix("OK ") else {
+        bad.push(format!("unreadable conversion output: {}", &conv[..conv.len().min(80)]));
+        return bad;
+    };
+    if overflow {
+        bad.push("a timestamp that overflows i64 nanoseconds was accepted".into());
+        return bad;
+    }
+    let Some((cols, rows)) = body.strip_prefix("cols=").and_then(|b| b.split_once("|rows=")) else {
+        bad.push("unreadable batch".into());
+        return bad;
+    };
+    let cols: Vec<Vec<u8>> = cols.split(',').filter(|c| !c.is_empty() || cols == "").map(unhex).collect();
+    let cols: Vec<Vec<u8>> = if body.starts_with("cols=|") { vec![] } else { cols };
+    let rows: Vec<&str> = if rows.is_empty() { vec![] } else { rows.split('/').collect() };
+    if rows.len() != total {
+        bad.push(format!("{} samples became {} rows", total, rows.len()));
+        return bad;
+    }
+    // label columns: sorted, unique, exactly the label names other than __name__
+    let fix = |b: &Vec<u8>| if lossy { String::from_utf8_lossy(b).into_owned().into_bytes() } else { b.clone() };
+    let mut want: Vec<Vec<u8>> = req.iter().flat_map(|t| t.labels.iter()).map(|l| fix(&l.name)).filter(|n| n != b"__name__").collect();
+    want.sort();
+    want.dedup();
+    if cols != want {
+        bad.push(format!("label columns {:?} != sorted union of label names {:?}", show(&cols), show(&want)));
+        return bad;
+    }
+    let mut k = 0;
+    for (si, t) in req.iter().enumerate() {
+        let name = t.labels.iter().find(|l| l.name == b"__name__").map(|l| fix(&l.value)).unwrap_or_default();
+        for (sj, s) in t.samples.iter().enumerate() {
+            let f: Vec<&str> = rows[k].split(';').collect();
+            k += 1;
+            if f.len() != 4 {
+                bad.push(format!("series {} sample {}: unreadable row", si, sj));
+                continue;
+            }
+            if f[0] != (s.ts as i128 * 1_000_000).to_string() {
+                bad.push(format!("series {} sample {}: timestamp {} ms stored as {} ns", si, sj, s.ts, f[0]));
+            }
+            if unhex(f[1]) != name {
+                bad.push(format!("series {} sample {}: metric name {:?} stored as {:?}", si, sj, String::from_utf8_lossy(&name), String::from_utf8_lossy(&unhex(f[1]))));
+            }
+            // value: numerically equal
+            let v = f64::from_bits(s.bits);
+            let ok = match f[2].split_at(1) {
+                ("F", b) => b.parse::<u64>().ok().map(|b| b == s.bits || (v.is_nan() && f64::from_bits(b).is_nan())).unwrap_or(false),
+                ("U", u) => u.parse::<u64>().ok().map(|u| otlp::f64_exact_int(s.bits) == Some(u as i128)).unwrap_or(false),
+                ("I", i) => i.parse::<i64>().ok().map(|i| otlp::f64_exact_int(s.bits) == Some(i as i128)).unwrap_or(false),
+                _ => false,
+            };
+            if !ok {
+                bad.push(format!("series {} sample {}: value {:e} (bits {:#x}) stored as {}", si, sj, v, s.bits, f[2]));
+            }
+            // labels: complete, exact, nothing from other series
+            let cells: Vec<&str> = if cols.is_empty() { vec![] } else { f[3].split(',').collect() };
+            if cells.len() != cols.len() {
+                bad.push(format!("series {} sample {}: {} cells for {} label columns", si, sj, cells.len(), cols.len()));
+                continue;
+            }
+            for (c, cell) in cols.iter().zip(cells.iter()) {
+                let want = t.labels.iter().rev().find(|l| fix(&l.name) == *c).map(|l| fix(&l.value));
+                let got = if *cell == "~" { None } else { Some(unhex(cell)) };
+                if want != got {
+                    bad.push(format!(
+                        "series {} sample {}: label {:?} = {:?} stored as {:?}",
+                        si, sj, String::from_utf8_lossy(c), want.as_ref().map(|v| String::from_utf8_lossy(v).into_owned()), got.as_ref().map(|v| String::from_utf8_lossy(v).into_owned())
+                    ));
+                }
+            }
+        }
+    }
+    bad
+}
+fn show(v: &[Vec<u8>]) -> Vec<String> {
+    v.iter().map(|b| String::from_utf8_lossy(b).into_owned()).collect()
+}
+
+// ============================================================ handler path
+struct HandlerEnv {
+    rt: tokio::runtime::Runtime,
+    state: cardinalsin::api::ApiState,
+    rx: tokio::sync::broadcast::Receiver<arrow_array::RecordBatch>,
+}
+impl HandlerEnv {
+    fn new() -> HandlerEnv {
+        let rt = tokio::runtime::Builder::new_current_thread().enable_all().build().unwrap();
+        let (state, rx) = rt.block_on(async {
+            use cardinalsin::metadata::LocalMetadataClient;
+            use cardinalsin::query::{QueryConfig, QueryNode};
+            let ing = mk_ingester(1);
+            let rx = ing.subscribe();
+            let store: Arc<dyn object_store::ObjectStore> = Arc::new(object_store::memory::InMemory::new());
+            let qn = QueryNode::new(QueryConfig::default(), store, Arc::new(LocalMetadataClient::new()), cardinalsin::StorageConfig::default()).await.expect("query node");
+            (cardinalsin::api::ApiState { ingester: ing, query_node: Arc::new(qn) }, rx)
+        });
+        HandlerEnv { rt, state, rx }
+    }
+    /// POST body -> (status | PANIC, flushed batches in canonical text)
+    fn post(&mut self, body: Vec<u8>) -> (String, Vec<String>) {
+        use axum::response::IntoResponse;
+        let st = self.state.clone();
+        let r = self.rt.block_on(async move {
             let h = tokio::spawn(async move {
-                cardinalsin::api::ingest::prometheus::handle_remote_write(axum::extract::State(st), axum::body::Bytes::from(body)).await.into_response().status()
+                cardinalsin::api::ingest::prometheus::handle_remote_write(axum::extract::State(st), axum::body::Bytes::from(body)).await.into_response().status().as_u16()
             });
-            let r = h.await;
-            println!("handler {}: {:?}", name, r.map_err(|e| e.to_string()));
-            while let Ok(b) = rx.try_recv() { println!("   broadcast rows {} cols {}", b.num_rows(), b.num_columns()); }
+            h.await
+        });
+        let mut flushed = Vec::new();
+        while let Ok(b) = self.rx.try_recv() {
+            flushed.push(canon::canon_batch(&b));
         }
-    });
+        (match r { Ok(s) => s.to_string(), Err(_) => "PANIC".into() }, flushed)
+    }
+}
+
+// ======================================================================= main
+struct Ctx {
+    model: Model,
+    worker: Worker,
+    report: Report,
+}
+
+impl Ctx {
+    /// one remote-write byte string through implementation and model; returns
+    /// (impl parse out, impl combined out, disagreement?)
+    fn check_bytes(&mut self, bytes: &[u8], origin: &str) -> (String, String, bool) {
+        let (ip, ic) = impl_prom(&mut self.worker, bytes);
+        self.report.impl_runs += 1;
+        let h = hex(bytes);
+        let (d1, mp) = self.model.differs(&format!("P d {}", h), &ip);
+        let (d2, mc) = self.model.differs(&format!("C d {}", h), &ic);
+        // the release-build model must agree with the debug-build model on the current code
+        let mr = self.model.ask(&format!("P r {}", h));
+        let d3 = !self.model.is_null() && mr != mp;
+        if d1 || d2 || d3 {
+            let shrunk = ddmin(bytes, &mut |cand: &[u8]| {
+                let (p, c) = impl_prom(&mut self.worker, cand);
+                let hh = hex(cand);
+                self.model.differs(&format!("P d {}", hh), &p).0 || self.model.differs(&format!("C d {}", hh), &c).0
+            });
+            let (sp, sc) = impl_prom(&mut self.worker, &shrunk);
+            let sh = hex(&shrunk);
+            let smp = self.model.ask(&format!("P d {}", sh));
+            let smc = self.model.ask(&format!("C d {}", sh));
+            let crashed = ["PANIC", "HANG", "ABORT"].iter().any(|k| ip.starts_with(k) || ic.starts_with(k));
+            self.report.disagreement(json!({
+                "correspondence": "protobuf reader + conversion model (Model/Proto.v, Model/ProtoConv.v) vs parse_write_request / convert_prom_to_arrow",
+                "case": {"kind": "prom", "hex": h, "origin": origin},
+                "impl": {"parse": ip, "convert": ic}, "model": {"parse": mp, "convert": mc, "parse_release": mr},
+                "shrunk": {"kind": "prom", "hex": sh}, "shrunk_impl": {"parse": sp, "convert": sc}, "shrunk_model": {"parse": smp, "convert": smc},
+                "oracle_failed": crashed,
+            }));
+        }
+        (ip, ic, d1 || d2 || d3)
+    }
+
+    fn no_crash_oracle(&mut self, bytes: &[u8], ip: &str, ic: &str, origin: &str) {
+        for (what, out) in [("parse_write_request", ip), ("convert_prom_to_arrow", ic)] {
+            let crash = if out.starts_with("PANIC") {
+                Some("panicked")
+            } else if out == "HANG" {
+                Some("did not return within the watchdog (hang)")
+            } else if out == "ABORT" {
+                Some("killed the process (abort)")
+            } else {
+                None
+            };
+            if let Some(c) = crash {
+                let shrunk = ddmin(bytes, &mut |cand: &[u8]| {
+                    let (p, cc) = impl_prom(&mut self.worker, cand);
+                    [p.as_str(), cc.as_str()].iter().any(|o| o.starts_with("PANIC") || *o == "HANG" || *o == "ABORT")
+                });
+                self.report.oracle_violation("", &format!("{} {} on a request body ({} bytes after shrinking)", what, c, shrunk.len()), json!({"kind": "prom", "hex": hex(&shrunk), "original": hex(bytes), "origin": origin}));
+                return;
+            }
+        }
+    }
+}
+
+fn replay(args: &Args, path: &str) -> ! {
+    let txt = std::fs::read_to_string(path).expect("replay file");
+    let v: serde_json::Value = serde_json::from_str(&txt).expect("replay json");
+    let case = if v["case"].is_object() { v["case"].clone() } else { v.clone() };
+    let kind = case["kind"].as_str().unwrap_or("prom").to_string();
+    let mut model = Model::spawn(&args.model);
+    let mut worker = Worker::spawn();
+    let mut failed = false;
+    match kind.as_str() {
+        "prom" => {
+            let bytes = unhex(case["hex"].as_str().unwrap_or(""));
+            let (ip, ic) = impl_prom(&mut worker, &bytes);
+            let mp = model.ask(&format!("P d {}", hex(&bytes)));
+            let mc = model.ask(&format!("C d {}", hex(&bytes)));
+            println!("bytes : {}\nimpl  parse  : {}\nmodel parse  : {}\nimpl  convert: {}\nmodel convert: {}", hex(&bytes), ip, mp, ic, mc);
+            failed = (!model.is_null() && (ip != mp || ic != mc)) || [&ip, &ic].iter().any(|o| o.starts_with("PANIC") || *o == "HANG" || *o == "ABORT");
+            if let Some(rt) = case["request"].as_str() {
+                let req = parse_request_text(rt);
+                let bad = prom_oracle(&req, &ic, false);
+                println!("oracle failures: {:?}", bad);
+                failed |= !bad.is_empty();
+            }
+        }
+        "handler" => {
+            let body = unhex(case["body_hex"].as_str().unwrap_or(""));
+            let mut env = HandlerEnv::new();
+            let (st, fl) = env.post(body.clone());
+            let dec = snap::raw::Decoder::new().decompress_vec(&body).ok();
+            let ms = model.ask(&format!("H d {}", dec.as_ref().map(|d| hex(d)).unwrap_or("-".into())));
+            println!("status impl {} model {}\nflushed {:?}", st, ms, fl);
+            failed = st == "PANIC" || (!model.is_null() && st != ms);
+        }
+        "otlp" => {
+            use prost::Message;
+            let bytes = unhex(case["hex"].as_str().unwrap_or(""));
+            let req = opentelemetry_proto::tonic::collector::metrics::v1::ExportMetricsServiceRequest::decode(&bytes[..]).expect("decode");
+            let out = catch(AssertUnwindSafe(|| cardinalsin::api::ingest::otlp::export_request_to_arrow(&req).map_err(|e| e.to_string())));
+            let bad = otlp::oracle(&req, &out);
+            println!("request: {:?}\noracle failures: {:?}", otlp::request_text(&req), bad);
+            failed = !bad.is_empty();
+        }
+        "otlp_bytes" => {
+            let r = worker.ask(&format!("T {}", case["hex"].as_str().unwrap_or("")), WATCHDOG);
+            let s = match r { Answer::Line(l) => l, Answer::Hang => "HANG".into(), Answer::Died => "ABORT".into() };
+            println!("otlp bytes -> {}", s);
+            failed = s.starts_with("PANIC") || s == "HANG" || s == "ABORT";
+        }
+        "flight" => {
+            let r = worker.ask(&format!("F {}", case["frames"].as_str().unwrap_or("")), WATCHDOG);
+            let s = match r { Answer::Line(l) => l, Answer::Hang => "HANG".into(), Answer::Died => "ABORT".into() };
+            println!("flight frames -> {}", s);
+            failed = s.starts_with("PANIC") || s == "HANG" || s == "ABORT";
+        }
+        _ => println!("unknown replay kind {}", kind),
+    }
+    std::process::exit(if failed { 1 } else { 0 });
+}
+
+fn parse_request_text(s: &str) -> Vec<wire::GSeries> {
+    if s == "-" {
+        return vec![];
+    }
+    s.split('/')
+        .map(|ser| {
+            let (ls, ss) = ser.split_once('|').unwrap_or((ser, ""));
+            wire::GSeries {
+                labels: ls.split(',').filter(|x| !x.is_empty()).map(|l| { let (a, b) = l.split_once(':').unwrap_or((l, "")); wire::GLabel { name: unhex(a), value: unhex(b) } }).collect(),
+                samples: ss.split(',').filter(|x| !x.is_empty()).map(|x| { let (t, v) = x.split_once(':').unwrap_or((x, "0")); wire::GSample { ts: t.parse().unwrap_or(0), bits: v.parse().unwrap_or(0) } }).collect(),
+            }
+        })
+        .collect()
+}
+
+fn main() {
+    if std::env::args().nth(1).as_deref() == Some("worker") {
+        worker_main();
+        return;
+    }
+    let args = Args::parse();
+    csv_common::quiet_panics();
+    if let Some(path) = &args.replay {
+        replay(&args, path);
+    }
+    let thorough = args.thorough();
+    let n_structured = if thorough { 40_000 } else { 2_000 };
+    let n_malformed = if thorough { 150_000 } else { 5_000 };
+    let n_handler = if thorough { 3_000 } else { 300 };
+    let n_otlp = if thorough { 20_000 } else { 1_200 };
+    let n_otlp_bytes = if thorough { 20_000 } else { 1_000 };
+    let n_flight = if thorough { 6_000 } else { 400 };
+
+    let mut cx = Ctx { model: Model::spawn(&args.model), worker: Worker::spawn(), report: Report::new("C17") };
+    let mut rng = Rng::new(args.seed);
+    let mut henv = HandlerEnv::new();
+
+    // ------------------------------------------------ 0. corpus of hostile inputs
+    for (bytes, name) in wire::corpus() {
+        cx.report.case(None);
+        cx.report.bump(name);
+        cx.report.bump("stream.malformed");
+        let (ip, ic, _) = cx.check_bytes(&bytes, name);
+        cx.no_crash_oracle(&bytes, &ip, &ic, name);
+        // the same body through the public handler
+        let body = snap::raw::Encoder::new().compress_vec(&bytes).unwrap();
+        let (st, _) = henv.post(body.clone());
+        cx.report.impl_runs += 1;
+        let (d, ms) = cx.model.differs(&format!("H d {}", hex(&bytes)), &st);
+        if st == "PANIC" {
+            cx.report.oracle_violation("", &format!("handle_remote_write panicked on corpus input {}", name), json!({"kind": "handler", "body_hex": hex(&body), "decompressed_hex": hex(&bytes)}));
+        } else if d {
+            cx.report.disagreement(json!({"correspondence": "handler status model (ProtoConv.handle) vs handle_remote_write", "case": {"kind": "handler", "body_hex": hex(&body)}, "impl": st, "model": ms, "shrunk": {"kind": "handler", "body_hex": hex(&body)}, "oracle_failed": false}));
+        }
+    }
+
+    // ------------------------------------------------ 1. structured remote-write
+    let handler_every = (n_structured / n_handler).max(1);
+    for k in 0..n_structured {
+        let mut r = rng.fork();
+        let mut bumps: Vec<String> = Vec::new();
+        let opts = wire::GenOpts { invalid_utf8: false, reserved_names: r.chance(1, 6) };
+        let req = wire::gen_request(&mut r, &opts, &mut |s| bumps.push(s.to_string()));
+        let canonical = r.chance(1, 2);
+        let (enc, feats) = if canonical { (wire::encode_canonical(&req), vec![]) } else { wire::encode_variant(&req, &mut r) };
+        let text = wire::request_text(&req);
+        let total: usize = req.iter().map(|t| t.samples.len()).sum();
+        cx.report.case(if total > 0 { Some(&text) } else { None });
+        cx.report.bump("stream.structured");
+        cx.report.bump(if canonical { "encoding.canonical" } else { "encoding.variant" });
+        for f in &feats {
+            cx.report.bump(&format!("encoding.{}", f));
+        }
+        for b in &bumps {
+            cx.report.bump(b);
+        }
+        let (ip, ic, differs) = cx.check_bytes(&enc.buf, "structured");
+        if k < 3 {
+            cx.report.sample(json!({"request": text, "bytes": hex(&enc.buf), "impl_parse": ip, "impl_convert": ic}));
+        }
+        // the canonical encoder of the harness is the model's encoder
+        if canonical {
+            let (d, me) = cx.model.differs(&format!("E {}", text), &hex(&enc.buf));
+            if d {
+                cx.report.disagreement(json!({"correspondence": "hand encoder of the harness vs enc_request of the model", "case": {"kind": "prom", "hex": hex(&enc.buf), "request": text}, "impl": hex(&enc.buf), "model": me, "shrunk": {"kind": "prom", "hex": hex(&enc.buf)}, "oracle_failed": false}));
+            }
+            // parse_encode on the implementation: the reader returns exactly the request
+            if ip != format!("OK {}", text) {
+                cx.report.oracle_violation("", &format!("canonical encoding of a well-formed request decoded as {}", &ip[..ip.len().min(200)]), json!({"kind": "prom", "hex": hex(&enc.buf), "request": text}));
+            }
+        }
+        // oracle on what the conversion produced (the decoded request is `req` unless
+        // a non-canonical feature changes it: repeated scalars keep the last one, which
+        // the generator places last, so `req` stays the expected content)
+        let bad = prom_oracle(&req, &ic, false);
+        if !bad.is_empty() && !differs_only_by_variant(&feats) {
+            cx.report.oracle_violation("", &bad.join("; "), json!({"kind": "prom", "hex": hex(&enc.buf), "request": text}));
+        } else if !bad.is_empty() {
+            cx.report.oracle_violation("", &bad.join("; "), json!({"kind": "prom", "hex": hex(&enc.buf), "request": text, "features": feats}));
+        }
+        let _ = differs;
+        // struct-level conversion (no wire decoding in between)
+        if k % 5 == 0 {
+            let out = match cx.worker.ask(&format!("R {}", text), WATCHDOG) {
+                Answer::Line(l) => strip_panic(&l),
+                Answer::Hang => "HANG".into(),
+                Answer::Died => "ABORT".into(),
+            };
+            cx.report.impl_runs += 1;
+            let (d, m) = cx.model.differs(&format!("R {}", text), &out);
+            if d {
+                cx.report.disagreement(json!({"correspondence": "conversion model (ProtoConv.convert) vs convert_prom_to_arrow on a decoded request", "case": {"kind": "prom", "hex": hex(&enc.buf), "request": text}, "impl": out, "model": m, "shrunk": {"kind": "prom", "hex": hex(&enc.buf)}, "oracle_failed": false}));
+            }
+        }
+        // through the public handler
+        if k % handler_every == 0 {
+            let body = snap::raw::Encoder::new().compress_vec(&enc.buf).unwrap();
+            let (st, flushed) = henv.post(body.clone());
+            cx.report.impl_runs += 1;
+            cx.report.bump("stream.handler");
+            let (d, ms) = cx.model.differs(&format!("H d {}", hex(&enc.buf)), &st);
+            let case = json!({"kind": "handler", "body_hex": hex(&body), "decompressed_hex": hex(&enc.buf), "request": text});
+            if st == "PANIC" {
+                cx.report.oracle_violation("", "handle_remote_write panicked on a well-formed request", case.clone());
+            } else if d {
+                cx.report.disagreement(json!({"correspondence": "handler status model (ProtoConv.handle) vs handle_remote_write", "case": case, "impl": st, "model": ms, "shrunk": case, "oracle_failed": false}));
+            }
+            if st == "204" && total > 0 {
+                let want = ic.strip_prefix("OK ").unwrap_or("");
+                if flushed.len() != 1 || flushed[0] != want {
+                    cx.report.oracle_violation("", &format!("rows reaching the ingester through handle_remote_write differ from the converted request ({} batches flushed)", flushed.len()), case);
+                }
+            }
+        }
+    }
+
+    // ------------------------------------------------ 2. malformed remote-write
+    for _ in 0..n_malformed {
+        let mut r = rng.fork();
+        let (bytes, class) = if r.chance(1, 5) {
+            wire::random_bytes(&mut r)
+        } else {
+            let opts = wire::GenOpts { invalid_utf8: true, reserved_names: false };
+            let req = wire::gen_request(&mut r, &opts, &mut |_| {});
+            let (enc, _) = if r.chance(1, 2) { (wire::encode_canonical(&req), vec![]) } else { wire::encode_variant(&req, &mut r) };
+            if r.chance(1, 6) {
+                // not mutated: invalid UTF-8 in labels only (lossy conversion)
+                (enc.buf, "malformed.invalid_utf8_only")
+            } else {
+                let (b, c) = wire::mutate(&enc, &mut r);
+                if r.chance(1, 5) {
+                    let e2 = wire::Enc { buf: b, len_marks: enc.len_marks.clone() };
+                    let e2 = wire::Enc { len_marks: e2.len_marks.into_iter().filter(|(o, l)| o + l <= e2.buf.len()).collect(), buf: e2.buf };
+                    (wire::mutate(&e2, &mut r).0, "mutation.double")
+                } else {
+                    (b, c)
+                }
+            }
+        };
+        cx.report.case(None);
+        cx.report.bump("stream.malformed");
+        cx.report.bump(class);
+        let (ip, ic, _) = cx.check_bytes(&bytes, class);
+        let oc = if ip.starts_with("OK") { "outcome.accepted" } else if ip.starts_with("ERR") { "outcome.rejected" } else { "outcome.crash" };
+        cx.report.bump(oc);
+        cx.no_crash_oracle(&bytes, &ip, &ic, class);
+        // a share of them through the handler, some with a broken snappy frame
+        if r.chance(1, 25) {
+            let (body, dec) = if r.chance(1, 4) {
+                let junk: Vec<u8> = (0..r.range_usize(0, 20)).map(|_| r.below(256) as u8).collect();
+                let d = snap::raw::Decoder::new().decompress_vec(&junk).ok();
+                (junk, d)
+            } else {
+                (snap::raw::Encoder::new().compress_vec(&bytes).unwrap(), Some(bytes.clone()))
+            };
+            let (st, _) = henv.post(body.clone());
+            cx.report.impl_runs += 1;
+            cx.report.bump("stream.handler");
+            let (d, ms) = cx.model.differs(&format!("H d {}", dec.as_ref().map(|d| hex(d)).unwrap_or("-".into())), &st);
+            let case = json!({"kind": "handler", "body_hex": hex(&body)});
+            if st == "PANIC" {
+                cx.report.oracle_violation("", "handle_remote_write panicked on a hostile body", case);
+            } else if d {
+                cx.report.disagreement(json!({"correspondence": "handler status model (ProtoConv.handle) vs handle_remote_write", "case": case, "impl": st, "model": ms, "shrunk": case, "oracle_failed": false}));
+            }
+        }
+    }
+
+    // ------------------------------------------------ 3. OTLP
+    for k in 0..n_otlp {
+        use prost::Message;
+        let mut r = rng.fork();
+        let modelled = !r.chance(1, 6);
+        let mut bumps: Vec<String> = Vec::new();
+        let req = otlp::gen_request(&mut r, modelled, &mut |s| bumps.push(s.to_string()));
+        let text = otlp::request_text(&req);
+        let npoints = otlp::expectations(&req).len();
+        cx.report.case(if npoints > 0 { text.as_deref().or(Some("unmodelled")) } else { None });
+        cx.report.bump("stream.otlp");
+        for b in &bumps {
+            cx.report.bump(b);
+        }
+        let out = catch(AssertUnwindSafe(|| cardinalsin::api::ingest::otlp::export_request_to_arrow(&req).map_err(|e| e.to_string())));
+        cx.report.impl_runs += 1;
+        let enc = hex(&req.encode_to_vec());
+        let impl_out = match &out {
+            Err(_) => "PANIC".to_string(),
+            Ok(Err(e)) => format!("OERR {}", canon::err_code(e)),
+            Ok(Ok(b)) => format!("OK {}", otlp::canon_batch(b)),
+        };
+        let mut classes = String::new();
+        if let Some(t) = &text {
+            let (d, m) = cx.model.differs(&format!("O {}", t), &impl_out);
+            if k < 2 {
+                cx.report.sample(json!({"otlp_request": t, "impl": impl_out}));
+            }
+            if d {
+                cx.report.disagreement(json!({"correspondence": "OTLP conversion model (Model/Otlp.v) vs export_request_to_arrow", "case": {"kind": "otlp", "hex": enc, "request": t}, "impl": impl_out, "model": m, "shrunk": {"kind": "otlp", "hex": enc}, "oracle_failed": false}));
+            }
+            classes = cx.model.ask(&format!("K {}", t));
+        } else {
+            cx.report.bump("otlp.unmodelled_attribute_values");
+        }
+        for (kind, what) in otlp::oracle(&req, &out) {
+            // known-finding classes come from the model's executable classifier
+            let class = match kind {
+                "value" if classes.contains("int-precision") => "otlp-int-precision",
+                "time" if classes.contains("time-wrap") => "otlp-time-wrap",
+                _ => "",
+            };
+            if !class.is_empty() {
+                cx.report.bump(&format!("known.{}", class));
+            }
+            cx.report.oracle_violation(class, &what, json!({"kind": "otlp", "hex": enc}));
+        }
+    }
+    for _ in 0..n_otlp_bytes {
+        use prost::Message;
+        let mut r = rng.fork();
+        let bytes: Vec<u8> = if r.chance(1, 3) {
+            wire::random_bytes(&mut r).0
+        } else {
+            let req = otlp::gen_request(&mut r, false, &mut |_| {});
+            let e = wire::Enc { buf: req.encode_to_vec(), len_marks: vec![] };
+            wire::mutate(&e, &mut r).0
+        };
+        cx.report.case(None);
+        cx.report.bump("stream.otlp_bytes");
+        let s = match cx.worker.ask(&format!("T {}", hex(&bytes)), WATCHDOG) {
+            Answer::Line(l) => l,
+            Answer::Hang => "HANG".into(),
+            Answer::Died => "ABORT".into(),
+        };
+        cx.report.impl_runs += 1;
+        cx.report.bump(&format!("otlp_bytes.{}", s.split(' ').next().unwrap_or("")));
+        if s.starts_with("PANIC") || s == "HANG" || s == "ABORT" {
+            cx.report.oracle_violation("", &format!("OTLP request bytes: {}", &s[..s.len().min(160)]), json!({"kind": "otlp_bytes", "hex": hex(&bytes)}));
+        }
+    }
+
+    // ------------------------------------------------ 4. Arrow Flight DoPut
+    for _ in 0..n_flight {
+        let mut r = rng.fork();
+        let (frames, class) = gen_flight(&mut r);
+        cx.report.case(None);
+        cx.report.bump("stream.flight");
+        cx.report.bump(class);
+        let line = frames.iter().map(|(h, b)| format!("{}:{}", hex(h), hex(b))).collect::<Vec<_>>().join(",");
+        let s = match cx.worker.ask(&format!("F {}", line), WATCHDOG) {
+            Answer::Line(l) => l,
+            Answer::Hang => "HANG".into(),
+            Answer::Died => "ABORT".into(),
+        };
+        cx.report.impl_runs += 1;
+        cx.report.bump(&format!("flight.{}", s.split(' ').next().unwrap_or("")));
+        if s.starts_with("PANIC") || s == "HANG" || s == "ABORT" {
+            // shrink over frames, then over the bytes of the offending frame
+            let shrunk = ddmin(&frames, &mut |cand: &[(Vec<u8>, Vec<u8>)]| {
+                let l = cand.iter().map(|(h, b)| format!("{}:{}", hex(h), hex(b))).collect::<Vec<_>>().join(",");
+                match cx.worker.ask(&format!("F {}", l), WATCHDOG) {
+                    Answer::Line(x) => x.starts_with("PANIC"),
+                    _ => true,
+                }
+            });
+            let l = shrunk.iter().map(|(h, b)| format!("{}:{}", hex(h), hex(b))).collect::<Vec<_>>().join(",");
+            let class = if class == "flight.valid" || class == "flight.zero_rows" { "" } else { flight_class(&s) };
+            cx.report.oracle_violation(class, &format!("Flight DoPut frames ({}): {}", class_name(class), &s[..s.len().min(200)]), json!({"kind": "flight", "frames": l}));
+        }
+    }
+
+    cx.report.notes.push(format!("model calls: {}; worker restarts: {}", cx.model.calls, cx.worker.restarts));
+    cx.report.write(&args.out);
+}
+
+fn differs_only_by_variant(_feats: &[&str]) -> bool {
+    false
+}
+fn flight_class(_s: &str) -> &'static str {
+    ""
+}
+fn class_name(c: &str) -> &str {
+    if c.is_empty() { "unclassified" } else { c }
+}
+
+fn gen_flight(rng: &mut Rng) -> (Vec<(Vec<u8>, Vec<u8>)>, &'static str) {
+    use arrow_array::{Float64Array, RecordBatch, StringArray, TimestampNanosecondArray};
+    use arrow_schema::{DataType, Field, Schema, TimeUnit};
+    let n = if rng.chance(1, 8) { 0 } else { rng.range_usize(1, 4) };
+    let schema = Arc::new(Schema::new(vec![
+        Field::new("timestamp", DataType::Timestamp(TimeUnit::Nanosecond, Some("UTC".into())), false),
+        Field::new("metric_name", DataType::Utf8, false),
+        Field::new("value_f64", DataType::Float64, true),
+        Field::new("host", DataType::Utf8, true),
+    ]));
+    let batch = RecordBatch::try_new(
+        schema,
+        vec![
+            Arc::new(TimestampNanosecondArray::from((0..n).map(|i| 1_700_000_000_000_000_000 + i as i64).collect::<Vec<_>>()).with_timezone("UTC")),
+            Arc::new(StringArray::from((0..n).map(|_| "cpu").collect::<Vec<_>>())),
+            Arc::new(Float64Array::from((0..n).map(|i| i as f64 * 0.5).collect::<Vec<_>>())),
+            Arc::new(StringArray::from((0..n).map(|i| if i % 2 == 0 { Some("a") } else { None }).collect::<Vec<Option<&str>>>())),
+        ],
+    )
+    .unwrap();
+    let fd = cardinalsin::api::ingest::flight_ingest::batch_to_flight_data(&batch).unwrap();
+    let mut frames: Vec<(Vec<u8>, Vec<u8>)> = fd.iter().map(|f| (f.data_header.to_vec(), f.data_body.to_vec())).collect();
+    match rng.below(10) {
+        0 | 1 => (frames, if n == 0 { "flight.zero_rows" } else { "flight.valid" }),
+        2 => {
+            // random bytes as frames
+            let k = rng.range_usize(1, 3);
+            ((0..k).map(|_| (wire::random_bytes(rng).0, wire::random_bytes(rng).0)).collect(), "flight.random_frames")
+        }
+        3 => {
+            frames.remove(0);
+            (frames, "flight.schema_missing")
+        }
+        4 => {
+            for f in frames.iter_mut().skip(1) {
+                let l = f.1.len();
+                f.1.truncate(if l == 0 { 0 } else { rng.below(l as u64) as usize });
+            }
+            (frames, "flight.body_truncated")
+        }
+        5 | 6 => {
+            let i = rng.below(frames.len() as u64) as usize;
+            let e = wire::Enc { buf: frames[i].0.clone(), len_marks: vec![] };
+            for _ in 0..rng.range_usize(1, 3) {
+                let m = wire::mutate(&wire::Enc { buf: frames[i].0.clone(), len_marks: vec![] }, rng).0;
+                frames[i].0 = m;
+            }
+            let _ = e;
+            (frames, "flight.header_mutated")
+        }
+        7 => {
+            let i = rng.below(frames.len() as u64) as usize;
+            let l = frames[i].0.len();
+            if l >= 8 {
+                // overwrite 4 aligned bytes with an extreme value (offsets / lengths of the flatbuffer)
+                let at = (rng.below((l / 4) as u64) as usize) * 4;
+                let v: u32 = *rng.pick(&[0xFFFF_FFFFu32, 0x7FFF_FFFF, 0x8000_0000, 0, 1, 0x0000_FFFF]);
+                frames[i].0[at..at + 4].copy_from_slice(&v.to_le_bytes());
+            }
+            (frames, "flight.header_word_overwritten")
+        }
+        8 => {
+            frames.reverse();
+            (frames, "flight.frames_reordered")
+        }
+        _ => {
+            if frames.len() > 1 {
+                let i = 1 + rng.below(frames.len() as u64 - 1) as usize;
+                let extra = frames[i].clone();
+                frames.push(extra);
+                frames[i].1 = (0..rng.range_usize(0, 32)).map(|_| rng.below(256) as u8).collect();
+            }
+            (frames, "flight.body_replaced")
+        }
+    }
 }
